@@ -34,7 +34,7 @@ var (
 			"response posted under its own id, a completed id is absent from later pending lists; non-trivial = at least 2 requests in flight for "+
 			"one backend or a payload >= 1000000 bytes; distinct = SHA-256 of the case")
 	recB = vh.NewRecorder("C19", "blobs",
-		"requests and responses of sizes {0,1,999999,1000000,1000001,1999999,2000000,2000001,3000001,3500000} written and read back through "+
+		"requests and responses of sizes {0,1,999999,1000000,1000001,1999999,2000000,2000001,3000001,3500000, and 11-31 MB needing ten and more parts} written and read back through "+
 			"cache.NewCachingStore(store.NewPersistentStore()) in-process on the fake datastore/memcache, with memcache kept or flushed between "+
 			"write and read; oracle: byte-identical contents and metadata; non-trivial = size >= 1000000")
 	recF = vh.NewRecorder("C19", "store-faults",
@@ -462,9 +462,13 @@ func TestPropBlobs(t *testing.T) {
 	sizes := []int{0, 1, 500, 999999, 1000000, 1000001, 1999999, 2000000, 2000001, 3000001, 3500000}
 	vh.Rapid(t, vh.Scale(150, 3000), func(rt *rapid.T) {
 		c := BlobCase{Response: rapid.Bool().Draw(rt, "response"), FlushMem: rapid.Bool().Draw(rt, "flush"), Completed: rapid.Bool().Draw(rt, "completed")}
-		if rapid.IntRange(0, 4).Draw(rt, "any") == 0 {
+		switch rapid.IntRange(0, 11).Draw(rt, "any") {
+		case 0, 1:
 			c.Size = rapid.IntRange(0, 2100000).Draw(rt, "anySize")
-		} else {
+		case 11:
+			// ten and more blob parts (App Engine accepts requests of up to 32 MB)
+			c.Size = rapid.SampledFrom([]int{10999999, 11000001, 12500000, 21000001, 31000000}).Draw(rt, "hugeSize")
+		default:
 			c.Size = rapid.SampledFrom(sizes).Draw(rt, "size")
 		}
 		recB.Check(rt, &c, func() vh.Outcome { return runBlob(&c) })
